@@ -245,7 +245,8 @@ func runReadSQLCase(c readSQLCase) *core.Failure {
 		return core.Failf("begin: %v", err)
 	}
 	defer tx.Rollback()
-	got := model.Observe(qframe.ReadSQL(tx, opts...))
+	first := qframe.ReadSQL(tx, opts...)
+	got := model.Observe(first)
 	// expected
 	want := model.Frame{N: len(c.Rows)}
 	for i, name := range c.Cols {
@@ -299,6 +300,23 @@ func runReadSQLCase(c readSQLCase) *core.Failure {
 	}
 	if d := model.Diff(want, got); d != "" {
 		return core.Failf("ReadSQL(cols=%v kinds=%v rows=%v coerce=%v precision=%d): %s\n want: %s\n  got: %s", c.Cols, c.ColKinds, c.Rows, c.Coerce, c.Precision, d, want, got)
+	}
+	// a second read of a result set of the same shape (the rows in reverse order, the first row once more): the frame
+	// returned by the first read is a value of its own and must not change
+	if !got.Err && len(st.ResultRows) > 0 {
+		var rev [][]driver.Value
+		for i := len(st.ResultRows) - 1; i >= 0; i-- {
+			rev = append(rev, st.ResultRows[i])
+		}
+		rev = append(rev, st.ResultRows[0])
+		st.ResultRows = rev
+		second := qframe.ReadSQL(tx, opts...)
+		if second.Err == nil && second.Len() != len(rev) {
+			return core.Failf("second ReadSQL of %d rows returned %d rows", len(rev), second.Len())
+		}
+		if again := model.Observe(first); again.String() != got.String() {
+			return core.Failf("ReadSQL(cols=%v kinds=%v rows=%v coerce=%v): the frame returned by the first read changed when a second result set of the same shape was read:\n before: %s\n  after: %s", c.Cols, c.ColKinds, c.Rows, c.Coerce, got, again)
+		}
 	}
 	return nil
 }
